@@ -22,7 +22,7 @@ def gen_date_str(r):
     d = datetime.datetime(r.randint(1950, 2060), r.randint(1, 12),
                           r.randint(1, 28), r.randint(0, 23),
                           r.randint(0, 59), r.randint(0, 59))
-    k = r.weighted([(3, 'date'), (3, 'dt'), (2, 'frac'), (1, 'slash')])
+    k = r.weighted([(3, 'date'), (3, 'dt'), (4, 'frac'), (1, 'slash')])
     if k == 'date':
         return d.strftime('%Y-%m-%d')
     if k == 'dt':
@@ -209,10 +209,11 @@ def near_miss(r, frame_spec):
                 f['sign'] = r.pick(SIGNS)
         elif t == 'date' and nn:
             srt = sorted(vals)
+            cut = 26 if r.chance(0.5) else 19   # keep microseconds or not
             if r.chance(0.7):
-                f['min'] = r.pick(srt)[:19].replace('T', ' ')
+                f['min'] = r.pick(srt)[:cut].replace('T', ' ')
             if r.chance(0.7):
-                f['max'] = r.pick(srt)[:19].replace('T', ' ')
+                f['max'] = r.pick(srt)[:cut].replace('T', ' ')
         elif t == 'string' and nn:
             lens = sorted(len(v) for v in vals)
             if r.chance(0.6):
